@@ -11,7 +11,7 @@ def plan(ctx):
     """(seed, n_points, max length, want_coq) per history"""
     jobs = []
     if ctx.quick:
-        n_hist, n_coq = 70, 14
+        n_hist, n_coq = 240, 32
         for k in range(n_hist):
             coqk = k < n_coq
             jobs.append((ctx.rng.randrange(10**9), ctx.rng.randint(5, 8), 12 if coqk else ctx.rng.choice([20, 40, 40]), coqk))
@@ -95,7 +95,8 @@ def run(ctx):
         "5-10 data points with 1-2 samples and grid 4, values k/16; after EVERY edit: four-view agreement (abs_impl), data conservation, every clone's "
         "log_p/log_r, the root vector and both joint densities against a freshly built tree of the same shape (tolerance 1e-8 x history length), and "
         "originals untouched after copy-then-edit; a subset is replayed in the Coq model (Model/LTree.v with the concrete recursion of LTreeConv.v) and "
-        "compared per step as rationals; non-trivial = history with >= 3 distinct operation kinds; distinct = (seed) history"
+        "compared per step as rationals; every tree returned by the real samplers (wired as phyclone.run, all three kernels, outliers on/off) is compared "
+        "with its rebuild too; non-trivial = history with >= 3 distinct operation kinds; distinct = (seed) history"
     )
     ctx.exhaustive = False
     jobs = plan(ctx)
@@ -111,6 +112,13 @@ def run(ctx):
     ctx.extra["edits_checked"] = n_edits
     ctx.log("histories %d, edits %d" % (len(results), n_edits))
     report_history_failures(ctx, results, "C06")
+    # trees returned by the real samplers (the real composition of edits, including the particles' dictionary form)
+    from . import C07
+
+    sres = C07.run_samplers(ctx, C07.sampler_plan(ctx, 18 if ctx.quick else 90, 5 if ctx.quick else 10))
+    C07.report_sampler_results(ctx, sres, "C06")
+    ctx.extra["sampler_calls_checked"] = sum(sum(r["calls"].values()) for r in sres)
+    ctx.log("sampler runs %d, trees checked %d" % (len(sres), ctx.extra["sampler_calls_checked"]))
     coq_correspondence(ctx, results)
     ctx.assumptions += [
         "the recursion S (compute_log_S) is abstract in the theorems; the executable correspondence instantiates it with an exact truncated convolution + running sum",
